@@ -15,7 +15,7 @@ RULE = (
     "on the live instance)"
 )
 BOUNDS = {
-    "quick": "2 groups x {new,reuse} x {collect_paths, collect_by_line} x 3 clock steps = 24 operations, all histories to depth 3",
+    "quick": "2 groups x {new,reuse} x {collect_paths, collect_by_line} x 3 clock steps = 24 operations, all histories to depth 3; plus all same-second chains of 4 and 5 runs over 4 operations",
     "thorough": "same 24 operations to depth 4, plus all six run methods (72 operations) to depth 2",
 }
 DEPTH = {"quick": 3, "thorough": 4}
@@ -58,16 +58,25 @@ def ops(tier):
 
 
 def extra_histories(tier):
-    """thorough: all six methods to depth 2 (run as additional frontier-independent histories)."""
-    if tier != "thorough":
-        return []
-    o = []
-    for g in ("g1", "g2"):
-        for inst in ("new", "reuse"):
-            for m in METHODS_ALL:
-                for c in (0, 1, 2):
-                    o.append([g, inst, m, c])
-    hs = [[a] for a in o] + [[a, b] for a in o for b in o]
+    """beyond the BFS depth: (a) same-second chains of 4 and 5 runs over {g1,g2} x {new,reuse} x collect_paths (collision-suffix logic
+    needs >=4 runs in one second); (b) thorough: all six methods to depth 2."""
+    import itertools
+
+    same = [[g, inst, "collect_paths", 0] for g in ("g1", "g2") for inst in ("new", "reuse")]
+    hs = []
+    for n in (4, 5):
+        for t in itertools.product(same, repeat=n):
+            if t[0][1] == "reuse":
+                continue
+            hs.append([list(o) for o in t])
+    if tier == "thorough":
+        o = []
+        for g in ("g1", "g2"):
+            for inst in ("new", "reuse"):
+                for m in METHODS_ALL:
+                    for c in (0, 1, 2):
+                        o.append([g, inst, m, c])
+        hs += [[a] for a in o] + [[a, b] for a in o for b in o]
     return hs
 
 
